@@ -45,6 +45,11 @@ def transforms(p, rng, extracted, avoid=()):
         out.append((f"rename:shadow{j}", coregen.Knobs(rename={x: y})))
     out.append(("parens", coregen.Knobs(parens=True)))
     out.append(("layout", coregen.Knobs(comments=True, newline_in_brackets=True)))
+    # pure white-space changes between the same tokens: every line in column 0 (a line may then START with `(`),
+    # statements separated by `;` with nothing after it
+    out.append(("layout:dedent", coregen.Knobs(dedent=True, parens=True, newline_in_brackets=True)))
+    out.append(("layout:semi", coregen.Knobs(semi=True, parens=True)))
+    out.append(("layout:dedent+cmt", coregen.Knobs(dedent=True, comments=True)))
     out.append(("annotate", coregen.Knobs(annotate=True)))
     out.append(("all", coregen.Knobs(parens=True, comments=True, newline_in_brackets=True, annotate=True,
                                      rename={n: "q%d_" % i + n for i, n in enumerate(names)},
